@@ -708,3 +708,19 @@ def back_only(f, x, b, sblk):
     return True
 
 
+
+
+def filter_facts(f, atoms):
+    """additional comparison facts implied by `x.filter(pred) is Some`: pred((x as Some).0) holds — the closure's return
+    expression with its parameter and captures substituted, as an atom"""
+    out = []
+    for a in atoms:
+        if a and a[0] == 'is' and a[2] == 'Some' and a[1][0] == 'call' and a[1][1] == 'std::option::Option::filter' and len(a[1][2]) == 2:
+            x, clo = a[1][2]
+            payload = ('field', ('as', x, 'Some'), '0')
+            body = f._beta(clo, [payload], 80)
+            if body is not None:
+                b2 = atom_of(body, ('eq', 1))
+                if b2 is not None:
+                    out.append(b2)
+    return out
